@@ -311,5 +311,7 @@ func checkProofResult(result, value []byte) bool {
 	s = append(s, tempBytes...)
 	// TODO
 	//hash := crypto.Keccak256(value)
-	return bytes.Equal(s, value)
+	// the storage word is 32 bytes wide; a shorter expected value (the 8-byte clean
+	// sequence) is compared as the same left-padded word
+	return bytes.Equal(s, common.LeftPadBytes(value, 32))
 }
